@@ -28,10 +28,15 @@ func (a *AlternativeResult) Spec_Identifier() string {
 }
 
 func (a *AlternativeResult) Spec_rounded() *AlternativeResult {
+	// C03/C04: the API rounds every utility to 1e-8; a value of magnitude 2^53/1e8 or more has no such digits left
+	// (and 1e8*v would lose precision or overflow), it is reported as it is
+	utility := a.Spec_Value()
+	if math.Abs(utility) < (1<<53)/1e8 {
+		utility = math.Round(1e8*utility) / 1e8
+	}
 	return &AlternativeResult{
 		Alternative: a.Alternative,
-		// C03/C04: the API rounds every utility to 1e-8
-		Evaluation: EvaluationSingleValue{math.Round(1e8*a.Spec_Value()) / 1e8},
+		Evaluation:  EvaluationSingleValue{utility},
 	}
 }
 
